@@ -1,12 +1,15 @@
 // C04 — compiler optimisations never change what a query outputs.
 //
 // correspondence streams `codeops` / `tailrec`: the real compiler's instruction list before a
-//   whole-code pass (compiled with that pass switched off through gojq.VerifOptMask) is sent to
-//   the Lean transliteration of the pass (Model/Optimize.lean); the result must equal the real
-//   compiler's instruction list with the pass on.
+//
+//	whole-code pass (compiled with that pass switched off through gojq.VerifOptMask) is sent to
+//	the Lean transliteration of the pass (Model/Optimize.lean); the result must equal the real
+//	compiler's instruction list with the pass on.
+//
 // oracle (model-free): every program compiled with each single rewrite disabled, and with all
-//   disabled, must emit the same values and errors in the same order as the fully optimised
-//   program; plus a static scan of the rewritten pairs against jump targets.
+//
+//	disabled, must emit the same values and errors in the same order as the fully optimised
+//	program; plus a static scan of the rewritten pairs against jump targets.
 package main
 
 import (
@@ -102,6 +105,11 @@ func main() {
 	}
 	for _, c := range common.Corpus() {
 		add(c.Query, "corpus")
+	}
+	// bounded-exhaustive: every program with at most 3 constructors over a small alphabet (the
+	// rewrites match opcode shapes, so what matters is which small shapes sit next to each other)
+	for _, q := range enumerate(ctx.Thorough, r) {
+		add(q, "exhaustive")
 	}
 	// generated: rewrite-precondition-biased templates filled with random sub-programs
 	n := ctx.N(2500, 40000)
@@ -286,6 +294,7 @@ var inputs = []any{nil, 0, 3, "ab", []any{1, 2, 3}, []any{[]any{1, 2}, []any{3}}
 // templates biased to the preconditions of each rewrite
 var templates = []string{
 	// constant arrays / objects / unary
+	"[(%K, . | %K)]", "[(%K, %A | %K)]", "[(%K, %K | %K)]", "[(%K, %K, . | %K)]", "[(%K, . | %K, %K)]", "[%K, (. | %K)]", "[(%K | %K), %K]", "{a: (%K, . | %K)}", "[(%K, empty | %K)]?", "[(%K, .)| %K]",
 	"[%K, %K]", "[%K, %A]", "[%A, %K, %K]", "[%K]", "[(%K, %K)]", "[%K, [%K, {a: %K}]]", "{a: %K, b: %K}", "{a: %K, b: %A}", "{(%K): %K}?", "{a: %K, a: %K}", "{\"a\": %K, \"b\": {c: %K}}", "{a: [%K, %K]}", "-%K?", "+%K?", "-(%K)?", "[-1, -1.5, +2, -0]", "{a: -1}", "[.[-1]?, .[-1:]?]", "-%A?",
 	// constant indexing
 	".[%K]?", ".[%K:%K]?", ".[%K:]?", ".[\"a\"]?", ".a[%K]?", ".[%K][%K]?", "%A | .[%K]?", ".[-1[0]]?", ".[1[0]:]?",
@@ -309,8 +318,63 @@ var templates = []string{
 }
 
 var biased = []string{
+	"[(\"b\", . | 5)]", "[(\"b\", . | [1,2])]", "[(1, 2 | 3)]", "[(\"a\", \"b\", . | 5)]",
 	"-1[0]", ".[1[0]]", ".[-1[0]]", "[1,2,3] | .[1.5[0]:2]", ".[\"a\"[0]]?", "1 + (label $l | .)", "{a: ((1, [.]) | 2)}", "1 as $x | {a: ((1, $x) | 2)}", "1 as $x | {a: (if . then 1 else $x end | 2)}", "{(.|tostring): ((reduce 0 as $v (0; .), [.]) | [])}",
 	".foo = 1", "try (.foo = 1) catch .", "try (.a.b = 1) catch .", "try (.[0] = 1) catch .", "try (.[1:] = 1) catch .", "[1,[2]] | .[1][0] = 9", "{} | .a.b.c = 1", "null | .[2] = 1", "[1] | .[-1] = 2", "try ([] | .[-1] = 2) catch .", "try (null | .[999999999] = 1) catch .",
 	"[1,2,3]", "{a:1,b:[2,{c:3}]}", "[1,[2,[3,[4]]]]", "[.,1]", "[1,.]", "{a:.}", "{a:1,b:.}", "{(1|tostring):2}", "{\"a\":1,\"a\":2}", "{a:1,a:2}", "{a:(1,2)}", "[(1,2)]", "[1,2|.+1]", "[empty]", "[]", "{}", "[[]]", "[{}]", "{a:{}}", "{a:[]}", "[null,true,false]", "[-1]", "[- 1]", "[-(1)]", "[+1]", "{a:-1}", "[\"a\",\"b\"]", "[1.5,1e2,100000000000000000000]",
 	"def f: f; limit(0; f)", "def f: if . < 100000 then . + 1 | f else . end; 0 | f", "def f: if . < 1000 then ., (. + 1 | f) else empty end; [0 | f] | length", "def f: (. + 1 | select(. < 1000) | f) // .; 0 | f",
+}
+
+// enumerate builds all programs of constructor depth ≤ 2 over the atoms (all of them in the thorough
+// tier, a deterministic-random half in the quick tier), plus if/bind shapes of depth 1.
+func enumerate(thorough bool, r *common.Rand) []string {
+	atoms := []string{".", "1", "\"a\"", "null", ".a", "empty", "[.]", "$__loc__.line", "[]", "-1"}
+	un := []string{"[%s]", "{a: %s}", "-(%s)", "(%s)?", ".[%s]?", "[%s, 2]", "{(%s|tostring): 1}", "first(%s)", "(%s) as $x | $x", "[%s] | length", "path(%s)?", "(%s) |= 1", "(%s) = 1", "try (%s) catch 1", "label $l | %s"}
+	bin := []string{"%s, %s", "%s | %s", "%s // %s", "%s + %s", "(%s)[%s]?", "[%s, %s]", "{a: %s, b: %s}", "%s == %s", "%s and %s", "if %s then %s else 3 end", "reduce (%s) as $x (0; %s)", "(%s) as $x | %s"}
+	l1 := atoms
+	var l2 []string
+	for _, u := range un {
+		for _, a := range l1 {
+			l2 = append(l2, fmt.Sprintf(u, "("+a+")"))
+		}
+	}
+	for _, b := range bin {
+		for _, a := range l1 {
+			for _, c := range l1 {
+				l2 = append(l2, fmt.Sprintf(b, "("+a+")", "("+c+")"))
+			}
+		}
+	}
+	out := append([]string{}, l2...)
+	keep := func() bool { return thorough || r.Chance(1, 8) }
+	for _, u := range un {
+		for _, a := range l2 {
+			if keep() {
+				out = append(out, fmt.Sprintf(u, "("+a+")"))
+			}
+		}
+	}
+	for _, b := range bin {
+		for _, a := range l1 {
+			for _, c := range l2 {
+				if keep() {
+					out = append(out, fmt.Sprintf(b, "("+a+")", "("+c+")"))
+				}
+				if keep() {
+					out = append(out, fmt.Sprintf(b, "("+c+")", "("+a+")"))
+				}
+			}
+		}
+	}
+	// without the protective parentheses too: precedence puts different shapes next to each other
+	for _, b := range []string{"%s, %s | %s", "%s | %s, %s", "[%s, %s | %s]", "{a: %s, %s | %s}"[:0] + "[(%s, %s | %s)]", "[%s | %s, %s]", "%s // %s | %s", "%s, %s // %s", "[%s, %s, %s]", "[(%s, %s), %s]", "[%s, (%s, %s)]"} {
+		for _, a := range l1 {
+			for _, c := range l1 {
+				for _, d := range l1 {
+					out = append(out, fmt.Sprintf(b, a, c, d))
+				}
+			}
+		}
+	}
+	return out
 }
